@@ -30,6 +30,10 @@ CHECKS = {
    text="BFS over histories of subscribe / two-chunk report reads / report ok or fail / attribute, cluster and endpoint changes / coalescing bursts / reporter iterations (remove-expired, report-or-purge) / unsubscribe / clock ticks on the real Subscriptions<2> table; in every visited state two bounded-liveness runs follow the table's own deadlines (all further reports succeed / all fail) and require that every live subscriber ends up knowing every current value, that failing subscriptions get no report attempt after max interval, and that min/max intervals are respected.",
    note="Model level: reads are should_report_attr decisions; events and the wire/chunk encoding are not part of this check; 'eventually' = within 16 reporter iterations at the announced deadlines.",
    tech="explicit-state BFS over operation histories of the real implementation with a bounded-liveness oracle per state"),
+ "C15": dict(cat="model_checking",
+   text="The wire log of every execution of the C09 exploration (all schedules within the deviation bound, CASE/PASE, all receiver behaviours and loss policies) plus a pipelining client against an acknowledge-then-reply handler is checked: datagrams with equal (sender, session id, counter) must be byte-identical, and first transmissions per sender and session must carry strictly increasing counters.",
+   note="Covers MRP traffic on pre-established sessions; handshake and IM traffic are added to this oracle by the harnesses of C01/C02/C13 when built; locally chosen session/exchange id uniqueness is checked with C20.",
+   tech="stateless deviation-bounded DFS over environment decisions with a wire-log invariant"),
  "C16": dict(cat="exploration",
    text="Bounded exhaustive input enumeration on the real codec: every byte string up to a length bound, a grammar-directed malformed set with boundary length fields up to 2^64-1, every value tree over boundary alphabets round-tripped, and every public derived wire decoder fed with all of these plus single-byte/bit mutations of valid encodings; all public accessors called on each input, with overflow checks on and a hang watchdog.",
    note="Checked build has overflow checks and debug assertions on; values beyond the boundary alphabets, strings above 65537 bytes and trees above 4 nodes are outside the bound.",
